@@ -347,6 +347,15 @@ class Engine:
             except RecursionError:
                 rec["status"] = "unsupported"
                 rec["detail"] = "recursion limit"
+            except (KeyboardInterrupt, SystemExit, MemoryError):
+                raise
+            except Exception as ex:
+                # a construct the model trips over: this path is undecided (bounded stand-in), never a verdict
+                import traceback as _tb
+                last = _tb.extract_tb(ex.__traceback__)[-1]
+                rec["status"] = "unsupported"
+                rec["detail"] = "engine internal error: %s: %s (%s:%d)" % (type(ex).__name__, str(ex)[:200],
+                                                                          last.filename.rsplit("/", 1)[-1], last.lineno)
             rec["decisions"] = list(self.trace)
             rec["solver_time"] = self.ps.time
             rec["queries"] = self.ps.nqueries
